@@ -213,6 +213,22 @@ VARIANTS = [
     V('c12-quotes-regex-no-dotall', 'C12', 'bad', 'R12.1', U, "    if val[0] in ('\"', \"'\", '`') and val[0] == val[-1]:\n        val = val[1:-1]\n    return val", "    m = re.match(r'^([\\'\"`])(.*)\\1$', val)\n    return m.group(2) if m else val"),
     V('c12-ok-quotes-regex-dotall', 'C12', 'ok', '', U, "    if val[0] in ('\"', \"'\", '`') and val[0] == val[-1]:\n        val = val[1:-1]\n    return val", "    m = re.match(r'^([\\'\"`])(.*)\\1$', val, re.DOTALL) if len(val) > 1 else None\n    return m.group(2) if m else val"),
     V('c03-strip-bom', 'C03', 'bad', 'R3.0', FS, "            stream = lexer.tokenize(sql, encoding)", "            if isinstance(sql, str):\n                sql = sql.lstrip('\\ufeff')\n            stream = lexer.tokenize(sql, encoding)"),
+    # ---- rules added in round 4
+    V('c12-aliased-skips-identifier', 'C12', 'bad', 'R12.5', G, "@recurse()\ndef group_aliased(tlist):", "@recurse(sql.Identifier)\ndef group_aliased(tlist):"),
+    V('c13-where-skips-parenthesis', 'C13', 'bad', 'R13.5', G, "@recurse(sql.Where)\ndef group_where(tlist):", "@recurse(sql.Where, sql.Parenthesis)\ndef group_where(tlist):"),
+    V('c13-ok-order-searches-more', 'C13', 'ok', '', G, "@recurse(sql.Over)\ndef group_over(tlist):", "@recurse()\ndef group_over(tlist):"),
+    V('c13-function-name-tuple', 'C13', 'bad', 'R13.3', G, "    tidx, token = tlist.token_next_by(t=T.Name)\n    while token:", "    tidx, token = tlist.token_next_by(t=(T.Name, T.Name.Placeholder))\n    while token:"),
+    V('c15-two-frame-pprint', 'C15', 'bad', 'R15.6', S, "                token._pprint_tree(max_depth, depth + 1, f, _pre + parent_pre)", "                token._pprint_children(max_depth, depth, f, _pre + parent_pre)\n\n    def _pprint_children(self, max_depth, depth, f, pre):\n        for t in self.tokens[:0]:\n            pass\n        self._pprint_tree(max_depth, depth + 1, f, pre)"),
+    V('c04-decision-before-reset', 'C04', 'bad', 'R4.8', SP, '            if self.consume_ws and ttype not in EOS_TTYPE:\n                yield sql.Statement(self.tokens)\n\n                # Reset filter and prepare to process next statement\n                self._reset()\n\n            # Change current split level (increase, decrease or remain equal)\n            self.level += self._change_splitlevel(ttype, value)\n\n            # Append the token to the current statement\n            self.tokens.append(sql.Token(ttype, value))\n\n            # Check if we get the end of a statement\n            # Issue762: Allow GO (or "GO 2") as statement splitter.\n            # When implementing a language toggle, it\'s not only to add\n            # keywords it\'s also to change some rules, like this splitting\n            # rule.\n            if (self.level <= 0 and ttype is T.Punctuation and value == \';\') \\\n                    or (ttype is T.Keyword\n                        and value.split()[0].upper() == \'GO\'):\n                self.consume_ws = True\n', "            at_end = (self.level <= 0 and ttype is T.Punctuation and value == ';') \\\n                or (ttype is T.Keyword and value.split()[0].upper() == 'GO')\n            if self.consume_ws and ttype not in EOS_TTYPE:\n                yield sql.Statement(self.tokens)\n\n                # Reset filter and prepare to process next statement\n                self._reset()\n\n            # Change current split level (increase, decrease or remain equal)\n            self.level += self._change_splitlevel(ttype, value)\n\n            # Append the token to the current statement\n            self.tokens.append(sql.Token(ttype, value))\n\n            if at_end:\n                self.consume_ws = True\n"),
+    V('c10-split-on-raw-value', 'C10', 'bad', 'R10.1', FR, "        m_split = T.Keyword, split_words, True\n        tidx, token = tlist.token_next_by(m=m_split, idx=idx)", "        tidx, token = tlist._token_matching(lambda t: t.ttype is T.Keyword and any(re.search(w, t.value, re.I) for w in split_words), idx + 1)"),
+    V('c20-class-list-alias-mutation', 'C20', 'bad', 'R20.4', S,
+      ("        types = [T.Name, T.Wildcard, T.String.Symbol]\n\n        if keywords:\n            types.append(T.Keyword)", "class TokenList(Token):\n"),
+      ("        types = self._NAME_TYPES\n\n        if keywords:\n            types += [T.Keyword]", "class TokenList(Token):\n    _NAME_TYPES = [T.Name, T.Wildcard, T.String.Symbol]\n")),
+    V('c20-class-list-added', 'C20', 'ok', '', S, "class TokenList(Token):\n", "class TokenList(Token):\n    _NAME_TYPES2 = [T.Name, T.Wildcard]\n"),
+    V('c09-shared-open-stack', 'C09', 'ok', '', G, "    opens = []\n    tidx_offset = 0\n    for idx, token in enumerate(list(tlist)):", "    tidx_offset = 0\n    opens = []\n    for idx, token in enumerate(list(tlist)):"),
+    V('c07-none-into-token-index', 'C07', 'bad', 'R7.3', FR, "                            if comma is None:\n                                continue\n                            token = comma", "                            token = comma"),
+    V('c07-validation-accepts-float-width', 'C07', 'bad', 'R7.2', FM, "    try:\n        indent_width = int(indent_width)\n    except (TypeError, ValueError):\n        raise SQLParseError('indent_width requires an integer')\n    if indent_width < 1:", "    if indent_width < 1:"),
+    V('c06-reindent-without-strip', 'C06', 'bad', 'R6.3', FM, "    if options.get('strip_whitespace') or options.get('reindent'):", "    if options.get('strip_whitespace'):"),
 ]
 
 WHOLE_FILE = {
@@ -232,6 +248,13 @@ def apply(v, src):
     if v['id'] in WHOLE_FILE:
         new = WHOLE_FILE[v['id']](src)
         return new if new != src else None
+    if isinstance(v['old'], (tuple, list)):
+        # several cooperating edits in one file
+        for o, n in zip(v['old'], v['new']):
+            if src.count(o) != 1:
+                return None
+            src = src.replace(o, n)
+        return src
     if src.count(v['old']) != 1:
         return None
     return src.replace(v['old'], v['new'])
